@@ -18,6 +18,7 @@ import (
 	"strings"
 	"sync"
 	"sync/atomic"
+	"syscall"
 	"testing"
 	"time"
 
@@ -81,6 +82,30 @@ func pick(q, th int) int {
 // hands the connection to the driver (a cancellation exactly between the two).
 var dialHook atomic.Value // func()
 
+// dialWrap, when set, wraps the connection the custom dialer hands to the driver (client-side transport
+// faults that a master cannot provoke: a write that fails).
+var dialWrap atomic.Value // func(net.Conn) net.Conn
+
+// failWriteConn fails its n-th Write (1-based) with ECONNRESET without sending anything; the writes of a
+// session are: the handshake response, the checksum statement, the dump command.
+type failWriteConn struct {
+	net.Conn
+	failAt, n int32
+}
+
+func (c *failWriteConn) Write(b []byte) (int, error) {
+	if atomic.AddInt32(&c.n, 1) == c.failAt {
+		return 0, &net.OpError{Op: "write", Net: "tcp", Err: syscall.ECONNRESET}
+	}
+	return c.Conn.Write(b)
+}
+
+// failDumpWrite arms dialWrap so that the next connection cannot send its dump command; it returns the disarm.
+func failDumpWrite() func() {
+	dialWrap.Store(func(c net.Conn) net.Conn { return &failWriteConn{Conn: c, failAt: 3} })
+	return func() { dialWrap.Store(func(c net.Conn) net.Conn { return c }) }
+}
+
 // perturbLogger is installed through the exported SetLogger.  It discards every
 // message; when a scenario arms it, it additionally delays the calling goroutine
 // at the library's log calls (a legitimate schedule perturbation: any real logger
@@ -138,6 +163,9 @@ func TestMain(m *testing.M) {
 		if f, ok := dialHook.Load().(func()); ok && f != nil && err == nil {
 			f()
 		}
+		if w, ok := dialWrap.Load().(func(net.Conn) net.Conn); ok && w != nil && err == nil {
+			c = w(c)
+		}
 		return c, err
 	})
 	os.Exit(m.Run())
@@ -175,6 +203,9 @@ func recorder(id string) *Recorder {
 		return r
 	}
 	r := &Recorder{ID: id, hashes: map[uint64]struct{}{}, Classes: map[string]int64{}, Excluded: map[string]int64{}}
+	if strconv.IntSize == 32 {
+		r.Classes["shards-in-a-32-bit-build (GOARCH=386)"] = 1
+	}
 	recorders[id] = r
 	return r
 }
@@ -264,6 +295,17 @@ type replayFile struct {
 	Check    string          `json:"check"`
 	Error    string          `json:"error"`
 	Case     json.RawMessage `json:"case"`
+	// Arch is "386" when the case failed in a 32-bit build of library and harness (int is 32 bits wide);
+	// bin/vcheck replay then builds the same way
+	Arch string `json:"arch,omitempty"`
+}
+
+// buildArch names the build when it is not the default 64-bit one.
+func buildArch() string {
+	if strconv.IntSize == 32 {
+		return "386"
+	}
+	return ""
 }
 
 // Violation saves the failing case as a replay file and records the finding.
@@ -276,7 +318,7 @@ func (r *Recorder) Violation(check string, c interface{}, sig string, err error)
 	path := ""
 	if envReplay != "" {
 		raw, _ := json.Marshal(c)
-		b, _ := json.MarshalIndent(replayFile{Property: r.ID, Check: check, Error: err.Error(), Case: raw}, "", " ")
+		b, _ := json.MarshalIndent(replayFile{Property: r.ID, Check: check, Error: err.Error(), Case: raw, Arch: buildArch()}, "", " ")
 		path = filepath.Join(envReplay, fmt.Sprintf("%s-%s-shard%d.json", r.ID, check, envShard))
 		os.MkdirAll(envReplay, 0o755)
 		os.WriteFile(path, b, 0o644)
